@@ -106,6 +106,10 @@ Section Bip32Spec.
      key in 1..n-1, (public) a valid compressed point *)
   Definition sub (a len : nat) (bs : bytes) : bytes := firstn len (skipn a bs).
 
+  (* a key at depth 0 has no parent: fingerprint 00000000 and child number 0 (BIP32 test vector 5) *)
+  Definition master_fields_bad (p : bytes) : bool :=
+    bytes_eqb (sub 4 1 p) [x00] && negb (bytes_eqb (sub 5 8 p) (repeat x00 8)).
+
   Definition parse_priv (s : string) : option sxprv :=
     match b58check_decode sha256d s with
     | None => None
@@ -113,6 +117,7 @@ Section Bip32Spec.
         if negb (Nat.eqb (length p) 78) then None
         else if negb (bytes_eqb (sub 0 4 p) version_xprv) then None
         else if negb (bytes_eqb (sub 45 1 p) [x00]) then None
+        else if master_fields_bad p then None
         else
           let k := parse256 (sub 46 32 p) in
           if (k =? 0) || (bip_n <=? k) then None
@@ -125,6 +130,7 @@ Section Bip32Spec.
     | Some p =>
         if negb (Nat.eqb (length p) 78) then None
         else if negb (bytes_eqb (sub 0 4 p) version_xpub) then None
+        else if master_fields_bad p then None
         else
           match ec_dec E (sub 45 33 p) with
           | None => None
